@@ -675,6 +675,8 @@ func calculateTextEditRange(content string, pos protocol.Position, ctxType Compl
 		if start := payeeStart(line[:byteCol]); start != -1 {
 			startByte = start
 		}
+	case ContextTagName:
+		startByte = tagNameStart(line[:byteCol])
 	default:
 		return nil
 	}
@@ -690,6 +692,16 @@ func calculateTextEditRange(content string, pos protocol.Position, ctxType Compl
 		Start: protocol.Position{Line: pos.Line, Character: uint32(startChar)},
 		End:   pos,
 	}
+}
+
+// tagNameStart returns the byte offset at which the tag name being typed starts in s, a
+// comment up to the cursor: behind the last ';' or ',' and the blanks that follow it.
+func tagNameStart(s string) int {
+	i := strings.LastIndexAny(s, ";,") + 1
+	for i < len(s) && (s[i] == ' ' || s[i] == '\t') {
+		i++
+	}
+	return i
 }
 
 // payeeStart returns the byte offset at which the description starts in s, a transaction
@@ -792,6 +804,9 @@ func extractQueryText(content string, pos protocol.Position, ctxType CompletionC
 			return ""
 		}
 		return strings.TrimLeft(afterAccount[amountEnd:], " ")
+
+	case ContextTagName:
+		return beforeCursor[tagNameStart(beforeCursor):]
 
 	default:
 		return ""
